@@ -1340,7 +1340,7 @@ class AtLeast(puan.Proposition):
                             )
                         )
                     )
-                ).sum(axis=0) >= self.value
+                ).reshape(-1, 2).sum(axis=0) >= self.value
             ) * 1
         )
 
